@@ -67,7 +67,9 @@ func (w *world) runEpoch(e, nops int, sched string, reorders int, emit bool) {
 	atomic.StoreInt32(&w.epoch, int32(e))
 	for _, ep := range w.allEps() {
 		ep.resetEpoch(w.G*nops + 8)
-		ep.conn.ResetRecording()
+		if ep.conn != nil {
+			ep.conn.ResetRecording()
+		}
 	}
 	w.gz.ResetTab()
 	atomic.StoreInt64(&w.handlersIn, 0)
@@ -78,7 +80,9 @@ func (w *world) runEpoch(e, nops int, sched string, reorders int, emit bool) {
 	var rd *reorderDriver
 	switch sched {
 	case "stall":
-		sds = []*stallDriver{w.newStallDriver(0), w.newStallDriver(1)}
+		if w.eps[0][0].conn != nil {
+			sds = []*stallDriver{w.newStallDriver(0), w.newStallDriver(1)}
+		}
 	case "reorder":
 		rd = w.newReorderDriver(reorders)
 	case "latewrite":
@@ -129,7 +133,7 @@ func (w *world) runEpoch(e, nops int, sched string, reorders int, emit bool) {
 			rd.ctl.releaseAll()
 		}
 		for _, ep := range w.allEps() {
-			ep.conn.Close()
+			ep.cut()
 		}
 		left := "all workers returned after the connections were cut"
 		t2 := time.NewTimer(3 * time.Second)
@@ -375,6 +379,9 @@ func (w *world) checkAsync(ep *endpoint, e int) {
 // checkFrames: one Write call per frame, no two Write calls of one conn in progress together.
 func (w *world) checkFrames(e int) {
 	for _, ep := range w.allEps() {
+		if ep.conn == nil {
+			continue // no scripted connection (websocket over TCP)
+		}
 		for _, wr := range ep.conn.Writes() {
 			atomic.AddInt64(&w.evals, 1)
 			human := fmt.Sprintf("%s epoch=%d conn=%s order=%d len=%d data=%x", w.spec, e, ep.name, wr.Order, len(wr.Data), clipB(wr.Data, 96))
